@@ -42,6 +42,39 @@ def blank_positions(line):
     return out
 
 
+def respace(rnd, line):
+    """extra blanks where the grammar allows them: after "(", before ")", around "," (outside quotes / brackets)"""
+    out = []
+    q = None
+    i = 0
+    while i < len(line):
+        c = line[i]
+        if q:
+            out.append(c)
+            if c == '\\' and i + 1 < len(line):
+                out.append(line[i + 1])
+                i += 2
+                continue
+            if c == q:
+                q = None
+        elif c in '\'"':
+            q = c
+            out.append(c)
+        elif c == '[':
+            q = ']'
+            out.append(c)
+        elif c == ',' and rnd.random() < 0.6:
+            out.append(rnd.choice([' ,', ', ', ' , ', '  ,  ']))
+        elif c == '(' and rnd.random() < 0.4:
+            out.append('( ')
+        elif c == ')' and rnd.random() < 0.4:
+            out.append(' )')
+        else:
+            out.append(c)
+        i += 1
+    return ''.join(out)
+
+
 def rewrite(rnd, lines):
     """apply a random combination of layout rewrites; returns (kind names, new text or chunks, chunked)"""
     names = []
@@ -50,10 +83,13 @@ def rewrite(rnd, lines):
     do_blank = rnd.random() < 0.6
     do_cont = rnd.random() < 0.5
     do_trail = rnd.random() < 0.4
+    do_space = rnd.random() < 0.4
     for ln in lines:
         if do_blank and rnd.random() < 0.3:
             out.append(rnd.choice(['', '   ', '# inserted comment', '\t# c \\', '#']))
         body = ln
+        if do_space and body.strip() and not body.lstrip().startswith('#') and not body.lstrip().startswith('include'):
+            body = respace(rnd, body)
         if indent is not None and body.strip() and not body.lstrip().startswith('#'):
             body = indent + body.lstrip()
         parts = [body]
@@ -71,7 +107,7 @@ def rewrite(rnd, lines):
             out.append(prt + (rnd.choice([' ', '  ', '\t']) if do_trail and rnd.random() < 0.5 else ''))
     if indent is not None:
         names.append('indent')
-    names += [n for n, f in (('blank/comment', do_blank), ('continuation', do_cont), ('trailing', do_trail)) if f]
+    names += [n for n, f in (('blank/comment', do_blank), ('continuation', do_cont), ('trailing', do_trail), ('respace', do_space)) if f]
     eol = '\n'
     if rnd.random() < 0.3:
         eol = '\r\n'
